@@ -203,6 +203,14 @@ def run_shard(spec, ctx):
                 p = r.choice(s)
                 R.expect("find(%s, %s)" % (S, src(p)), rs.find(s, p), "find:list:hit", ("find", S, src(p)))
                 R.expect("find_last(%s, %s)" % (S, src(p)), rs.find_last(s, p), "find_last:list:random", ("findl", S, src(p)))
+                # NULL is an element like any other
+                sn = list(s)
+                for _q in range(r.randint(0, 2)):
+                    sn.insert(r.randrange(len(sn) + 1), None)
+                SN = "[" + ", ".join("NULL" if x is None else src(x) for x in sn) + "]"
+                wf = next((q for q, x in enumerate(sn) if x is None), -1)
+                wl = next((q for q in reversed(range(len(sn))) if sn[q] is None), -1)
+                R.expect("[find(%s, NULL), find_last(%s, NULL)]" % (SN, SN), [wf, wl], "find:list:null-part", ("find-null", SN))
             # what indexing, slicing and substr return are new values: editing them in place changes neither the
             # sequence nor what the same expression returns next time
             if k == "str":
